@@ -16,6 +16,7 @@ import (
 	"strings"
 	"sync"
 	"sync/atomic"
+	"time"
 )
 
 // ---------------------------------------------------------------------------------------------
@@ -697,10 +698,34 @@ type Options struct {
 
 var runMu sync.Mutex
 
+var settleOnce sync.Once
+
+// settle waits (once per process, before the first execution) until every goroutine other than
+// the caller is parked. Package initialisers of the code under test start goroutines in
+// passthrough mode (websocket.DefaultEngine's task-pool dispatchers); such a goroutine must
+// have reached its native blocking select before an execution begins, otherwise it would enter
+// the shims while an execution is active and act as if it were the running thread.
+func settle() {
+	buf := make([]byte, 1<<20)
+	quiet := 0
+	for i := 0; i < 1000 && quiet < 3; i++ {
+		n := runtime.Stack(buf, true)
+		st := string(buf[:n])
+		busy := strings.Count(st, "[runnable") + strings.Count(st, "[running") + strings.Count(st, "[syscall")
+		if busy <= 1 { // the caller itself is running
+			quiet++
+		} else {
+			quiet = 0
+		}
+		time.Sleep(3 * time.Millisecond)
+	}
+}
+
 // RunOnce executes body as thread 0 under the given choice prefix and returns the result.
 func RunOnce(ex *Explorer, prefix []int, opts *Options, body func()) *Result {
 	runMu.Lock()
 	defer runMu.Unlock()
+	settleOnce.Do(settle)
 	epochCounter++
 	s := &Sched{epoch: epochCounter, done: make(chan struct{}), prefix: prefix, opts: opts, ex: ex}
 	s.horizon = 20000
